@@ -446,6 +446,28 @@ func (g *c08Gen) ownPrev(exp []c08GoEntry, room int) ([]c08GoEntry, string) {
 			own[len(own)-1].Conds[0].LastTransitionTime = metav1.Unix(1400000000, 0)
 			mode = "own-duplicated"
 		}
+	case x < 96:
+		// the same entry under a slightly different reference (section / namespace / kind)
+		if len(own) > 0 {
+			e := &own[r.Intn(len(own))]
+			switch {
+			case e.Section != nil:
+				if r.Bool() {
+					e.Section = nil
+				} else {
+					e.Section = c08P(*e.Section + "x")
+				}
+			case e.Kind != nil:
+				e.Kind = c08P("Service")
+			case e.Ns != nil:
+				e.Ns = c08P(*e.Ns + "x")
+			default:
+				e.Name += "x"
+			}
+			if e.Name != "" || e.Ns != nil {
+				mode = "reference-changed"
+			}
+		}
 	default:
 		if len(own) > 0 {
 			cs := own[r.Intn(len(own))].Conds
@@ -488,12 +510,13 @@ type c08RoundRec struct {
 }
 
 type c08World struct {
-	in      *c08Intern
-	crds    *c08CRDs
-	kv      string
-	plan    []c08Step
-	obs     []c08ObsRec
-	current client.Object // what the API server holds after the round
+	in       *c08Intern
+	crds     *c08CRDs
+	kv       string
+	plan     []c08Step
+	obs      []c08ObsRec
+	current  client.Object // what the API server holds after the round
+	rejected []int         // attempts whose Update the schema rejected
 }
 
 var c08GR = schema.GroupResource{Group: "g", Resource: "r"}
@@ -523,6 +546,10 @@ func (w *c08World) Update(_ context.Context, obj client.Object, _ ...client.SubR
 	w.obs[i] = c08ObsRec{Submitted: &st, CRDOk: len(errs) == 0, CRDErrors: errs}
 	if len(errs) > 3 {
 		w.obs[i].CRDErrors = errs[:3]
+	}
+	if len(errs) > 0 { // the API server does not store what its schema rejects, whatever the plan says
+		w.rejected = append(w.rejected, i)
+		return apierrors.NewBadRequest("c08: status rejected by the CRD schema: " + errs[0])
 	}
 	switch w.plan[i].upd {
 	case 1:
@@ -556,6 +583,9 @@ func c08RunRound(in *c08Intern, crds *c08CRDs, s *c08Spec, tt metav1.Time, plan 
 	_ = wait.ExponentialBackoffWithContext(context.Background(),
 		wait.Backoff{Duration: time.Microsecond, Factor: 1, Steps: c08Steps}, fn)
 	rec.Observed = w.obs
+	for _, i := range w.rejected {
+		rec.Attempts[i].Upd = "rejected-by-schema"
+	}
 	return rec, w.current
 }
 
